@@ -1,13 +1,813 @@
-//! C05 seeds, field inventory and entry points for "wmo" (stub: not built yet).
-use crate::seed::{Aux, Seed};
-use crate::worker::Runner;
+//! C05 seeds, field inventory and entry points for WMO root and group files.
+//!
+//! Seeds come from the crate's own `WmoWriter` (write_root / write_group) fed with a populated
+//! `WmoRoot` / `WmoGroup` model. The writer of this crate is not consistent with the crate's own
+//! parsers in a few places, so its output is repaired where a file would otherwise not be a valid
+//! chunk stream (every repair is a fixed, documented byte patch):
+//!   * write_materials declares 40 bytes per MOMT entry for targets before MoP but always writes
+//!     64 (the real size in every version): the MOMT size field is set to 64*n;
+//!   * write_group_info writes 0 for every MOGI name offset: the real offsets into MOGN are
+//!     patched in;
+//!   * write_group emits a 36-byte MOGP header, the parsers (and the file format) use 68 bytes:
+//!     the group seeds keep the sub-chunks the writer produced and get a 68-byte header in the
+//!     real layout; write_liquid declares an MLIQ size 8 bytes short of what it writes (repaired); MOPY / MOLR / MOBR (not written by the writer at all) and MOBN / MLIQ (written
+//!     in a layout the parser does not use) are assembled here in the on-disk layout of
+//!     chunks.rs, the way the crate's own tests assemble files.
+//! "root-full-v17" additionally gets the 64-byte MOHD of real files and MFOG / MCVP / GFID chunks
+//! appended (the writer cannot emit them), so that every branch of root_parser.rs is reached.
+//! Chunk tags are stored reversed on disk ("REVM").
+use crate::seed::{add_chunk_seq, walk_chunks, Aux, Seed};
+use crate::worker::{errname, Runner};
+use std::collections::HashMap;
+use std::io::Cursor;
+use wow_wmo::{
+    BoundingBox, Color, TexCoord, Vec3, WmoBatch, WmoBspNode, WmoDoodadDef, WmoDoodadSet, WmoFlags, WmoGroup,
+    WmoGroupFlags, WmoGroupHeader, WmoGroupInfo, WmoHeader, WmoLight, WmoLightProperties, WmoLightType, WmoLiquid,
+    WmoLiquidVertex, WmoMaterial, WmoMaterialFlags, WmoParser, WmoPlane, WmoPortal, WmoPortalReference, WmoRoot,
+    WmoVersion, WmoWriter,
+};
 
-pub fn seed_names(_thorough: bool) -> Vec<String> {
-    Vec::new()
+pub fn seed_names(thorough: bool) -> Vec<String> {
+    let mut v = vec!["root-full-v17".to_string(), "group-v17".to_string()];
+    if thorough {
+        v.push("root-classic-writer".into());
+        v.push("root-mop-writer".into());
+        v.push("root-wod-v18-writer".into());
+        v.push("group-writer-mop".into());
+        v.push("group-modern".into());
+    }
+    v
+}
+
+// ---------------------------------------------------------------------------------------------
+// helpers
+// ---------------------------------------------------------------------------------------------
+
+fn u32_at(b: &[u8], o: usize) -> u32 {
+    u32::from_le_bytes([b[o], b[o + 1], b[o + 2], b[o + 3]])
+}
+
+fn put32(b: &mut [u8], o: usize, v: u32) {
+    b[o..o + 4].copy_from_slice(&v.to_le_bytes());
+}
+
+fn rtag(b: &[u8], o: usize) -> String {
+    b[o..o + 4].iter().rev().map(|&c| c as char).collect()
+}
+
+fn chunk(tag: &str, payload: &[u8]) -> Vec<u8> {
+    let mut v: Vec<u8> = tag.bytes().rev().collect();
+    v.extend_from_slice(&(payload.len() as u32).to_le_bytes());
+    v.extend_from_slice(payload);
+    v
+}
+
+fn v3(x: f32, y: f32, z: f32) -> Vec3 {
+    Vec3 { x, y, z }
+}
+
+fn col(r: u8, g: u8, b: u8, a: u8) -> Color {
+    Color { r, g, b, a }
+}
+
+struct W(Vec<u8>);
+impl W {
+    fn u8(&mut self, v: u8) -> &mut Self {
+        self.0.push(v);
+        self
+    }
+    fn u16(&mut self, v: u16) -> &mut Self {
+        self.0.extend_from_slice(&v.to_le_bytes());
+        self
+    }
+    fn i16(&mut self, v: i16) -> &mut Self {
+        self.0.extend_from_slice(&v.to_le_bytes());
+        self
+    }
+    fn u32(&mut self, v: u32) -> &mut Self {
+        self.0.extend_from_slice(&v.to_le_bytes());
+        self
+    }
+    fn f32(&mut self, v: f32) -> &mut Self {
+        self.0.extend_from_slice(&v.to_le_bytes());
+        self
+    }
+}
+
+// ---------------------------------------------------------------------------------------------
+// root model
+// ---------------------------------------------------------------------------------------------
+
+const TEXTURES: [&str; 3] =
+    ["DUNGEONS\\TEXTURES\\WALLS\\BM_STONEWALL01.BLP", "DUNGEONS\\TEXTURES\\FLOOR\\JLO_FLOOR02.BLP", "tex3.blp"];
+
+fn motx_offsets() -> Vec<u32> {
+    let mut o = 0u32;
+    TEXTURES
+        .iter()
+        .map(|t| {
+            let r = o;
+            o += t.len() as u32 + 1;
+            r
+        })
+        .collect()
+}
+
+fn root_model(version: WmoVersion, skybox: bool) -> WmoRoot {
+    let to = motx_offsets();
+    let materials: Vec<WmoMaterial> = (0..3usize)
+        .map(|i| WmoMaterial {
+            flags: WmoMaterialFlags::from_bits_truncate(1 << i),
+            shader: i as u32,
+            blend_mode: (i % 2) as u32,
+            texture1: to[i],
+            emissive_color: col(10, 20, 30, 255),
+            sidn_color: col(1, 2, 3, 4),
+            framebuffer_blend: Color::default(),
+            texture2: to[(i + 1) % 3],
+            diffuse_color: col(200, 190, 180, 255),
+            ground_type: i as u32,
+        })
+        .collect();
+    let bb = |k: f32| BoundingBox { min: v3(-10.0 * k, -10.0 * k, 0.0), max: v3(10.0 * k, 10.0 * k, 8.0 * k) };
+    let groups = vec![
+        WmoGroupInfo { flags: WmoGroupFlags::HAS_NORMALS | WmoGroupFlags::INDOOR, bounding_box: bb(1.0), name: "Entrance_Hall".into() },
+        WmoGroupInfo { flags: WmoGroupFlags::HAS_WATER | WmoGroupFlags::HAS_DOODADS, bounding_box: bb(2.0), name: "antiportal".into() },
+        WmoGroupInfo { flags: WmoGroupFlags::EXTERIOR_LIGHTS, bounding_box: bb(3.0), name: "Room03".into() },
+    ];
+    let quad = |z: f32| vec![v3(-1.0, -1.0, z), v3(1.0, -1.0, z), v3(1.0, 1.0, z), v3(-1.0, 1.0, z)];
+    let portals = vec![
+        WmoPortal { vertices: quad(0.0), normal: v3(0.0, 0.0, 1.0) },
+        WmoPortal { vertices: quad(4.0), normal: v3(0.0, 0.0, -1.0) },
+    ];
+    let portal_references = vec![
+        WmoPortalReference { portal_index: 0, group_index: 1, side: 1 },
+        WmoPortalReference { portal_index: 0, group_index: 0, side: 0xFFFF },
+        WmoPortalReference { portal_index: 1, group_index: 2, side: 1 },
+        WmoPortalReference { portal_index: 1, group_index: 1, side: 0xFFFF },
+    ];
+    let light = |t: WmoLightType, p: WmoLightProperties, k: f32| WmoLight {
+        light_type: t,
+        position: v3(k, 2.0 * k, 3.0),
+        color: col(255, 240, 200, 255),
+        intensity: 1.5,
+        rotation: [0.0, 0.0, 0.0, 1.0],
+        attenuation_start: 2.0,
+        attenuation_end: 9.0 + k,
+        use_attenuation: true,
+        properties: p,
+    };
+    let lights = vec![
+        light(WmoLightType::Omni, WmoLightProperties::Omni, 1.0),
+        light(WmoLightType::Spot, WmoLightProperties::Spot { direction: v3(0.0, 0.0, -1.0), hotspot: 0.3, falloff: 0.6 }, 2.0),
+        light(WmoLightType::Ambient, WmoLightProperties::Ambient, 3.0),
+    ];
+    let doodad_defs: Vec<WmoDoodadDef> = (0..4u32)
+        .map(|i| WmoDoodadDef {
+            name_offset: i * 7,
+            position: v3(i as f32, 1.0, 0.5),
+            orientation: [0.0, 0.0, 0.0, 1.0],
+            scale: 1.0 + i as f32 * 0.25,
+            color: col(128, 128, 128, 255),
+            set_index: (i / 2) as u16,
+        })
+        .collect();
+    let doodad_sets = vec![
+        WmoDoodadSet { name: "Set_$DefaultGlobal".into(), start_doodad: 0, n_doodads: 2 },
+        WmoDoodadSet { name: "Set_Torches".into(), start_doodad: 2, n_doodads: 2 },
+    ];
+    let header = WmoHeader {
+        n_materials: 3,
+        n_groups: 3,
+        n_portals: 2,
+        n_lights: 3,
+        n_doodad_names: 4,
+        n_doodad_defs: 4,
+        n_doodad_sets: 2,
+        flags: WmoFlags::HAS_VERTEX_COLORS | WmoFlags::HAS_LIQUIDS,
+        ambient_color: col(60, 70, 80, 255),
+    };
+    WmoRoot {
+        version,
+        materials,
+        groups,
+        portals,
+        portal_references,
+        visible_block_lists: vec![vec![0, 1, 2], vec![2, 1]],
+        lights,
+        doodad_defs,
+        doodad_sets,
+        bounding_box: bb(3.0),
+        textures: TEXTURES.iter().map(|s| s.to_string()).collect(),
+        texture_offset_index_map: HashMap::new(),
+        header,
+        skybox: if skybox { Some("Environments\\Stars\\DeathSkyBox.m2".to_string()) } else { None },
+        convex_volume_planes: None,
+    }
+}
+
+/// Walk the writer's output leniently (MOMT may declare 40 bytes per entry while 64 were written)
+/// and repair it: MOMT size := 64 * n_materials, MOGI name offsets := offsets into MOGN.
+fn repair_root(mut b: Vec<u8>, n_materials: usize) -> Vec<u8> {
+    let mut p = 0usize;
+    let mut mogn: Option<(usize, usize)> = None;
+    while p + 8 <= b.len() {
+        let t = rtag(&b, p);
+        let mut sz = u32_at(&b, p + 4) as usize;
+        if t == "MOMT" && sz == 40 * n_materials {
+            sz = 64 * n_materials;
+            put32(&mut b, p + 4, sz as u32);
+        }
+        if t == "MOGN" {
+            mogn = Some((p + 8, sz));
+        }
+        if t == "MOGI" {
+            if let Some((gs, gl)) = mogn {
+                // the k-th name starts after k terminators
+                let mut starts = vec![0usize];
+                for i in 0..gl {
+                    if b[gs + i] == 0 && i + 1 < gl {
+                        starts.push(i + 1);
+                    }
+                }
+                for k in 0..sz / 32 {
+                    let off = starts.get(k).copied().unwrap_or(0) as u32;
+                    put32(&mut b, p + 8 + 32 * k + 28, off);
+                }
+            }
+        }
+        p += 8 + sz;
+    }
+    assert_eq!(p, b.len(), "wmo root: writer output is not a chunk stream after repair");
+    b
+}
+
+fn write_root(version: WmoVersion, skybox: bool) -> Vec<u8> {
+    let m = root_model(version, skybox);
+    let mut out = Cursor::new(Vec::new());
+    WmoWriter::new().write_root(&mut out, &m, version).expect("WmoWriter::write_root");
+    repair_root(out.into_inner(), m.materials.len())
+}
+
+/// MOHD as real files have it (64 bytes): counts, ambient colour, wmoID, bounding box, flags:u16,
+/// numLod:u16; plus the chunks the writer cannot emit.
+fn upgrade_root(b: Vec<u8>) -> Vec<u8> {
+    let mut out = Vec::new();
+    for (o, tot) in walk_chunks(&b, 0, b.len()) {
+        if rtag(&b, o) == "MOHD" && tot == 8 + 60 {
+            let p = &b[o + 8..o + tot];
+            let mut w = W(Vec::new());
+            w.0.extend_from_slice(&p[0..32]); // 7 counts + ambient colour
+            w.u32(4321); // wmoID
+            w.0.extend_from_slice(&p[36..60]); // bounding box
+            w.u16(u32_at(p, 32) as u16); // flags
+            w.u16(1); // numLod
+            out.extend_from_slice(&chunk("MOHD", &w.0));
+        } else {
+            out.extend_from_slice(&b[o..o + tot]);
+        }
+    }
+    // MFOG: 2 fogs of 48 bytes
+    let mut w = W(Vec::new());
+    for k in 0..2 {
+        w.u32(k).f32(1.0).f32(2.0).f32(3.0).f32(5.0).f32(50.0).f32(100.0).f32(0.25).u32(0xFF80_8080).f32(40.0).f32(0.1).u32(0xFF10_2030);
+    }
+    out.extend_from_slice(&chunk("MFOG", &w.0));
+    // MCVP: 3 planes of 16 bytes
+    let mut w = W(Vec::new());
+    for k in 0..3 {
+        w.f32(0.0).f32(0.0).f32(1.0).f32(k as f32);
+    }
+    out.extend_from_slice(&chunk("MCVP", &w.0));
+    // GFID: one FileDataID per group
+    let mut w = W(Vec::new());
+    for k in 0..3u32 {
+        w.u32(110_000 + k);
+    }
+    out.extend_from_slice(&chunk("GFID", &w.0));
+    out
+}
+
+// ---------------------------------------------------------------------------------------------
+// group model
+// ---------------------------------------------------------------------------------------------
+
+const NV: usize = 8;
+const NIDX: usize = 36;
+
+fn group_model() -> WmoGroup {
+    let vertices: Vec<Vec3> =
+        (0..NV).map(|i| v3((i & 1) as f32 * 4.0, ((i >> 1) & 1) as f32 * 4.0, ((i >> 2) & 1) as f32 * 4.0)).collect();
+    let normals: Vec<Vec3> = (0..NV).map(|i| v3(0.0, 0.0, if i < 4 { -1.0 } else { 1.0 })).collect();
+    let tex_coords: Vec<TexCoord> = (0..NV).map(|i| TexCoord { u: (i & 1) as f32, v: ((i >> 1) & 1) as f32 }).collect();
+    let faces: [[u16; 3]; 12] = [
+        [0, 1, 2], [1, 3, 2], [4, 6, 5], [5, 6, 7], [0, 4, 1], [1, 4, 5], [2, 3, 6], [3, 7, 6], [0, 2, 4], [2, 6, 4], [1, 5, 3], [3, 5, 7],
+    ];
+    let indices: Vec<u16> = faces.iter().flatten().copied().collect();
+    assert_eq!(indices.len(), NIDX);
+    let batch = |start: u32, mat: u16| WmoBatch {
+        flags: [0xFC, 0xFF, 0xFC, 0xFF, 0xFC, 0xFF, 4, 0, 4, 0],
+        material_id: mat,
+        start_index: start,
+        count: 18,
+        start_vertex: 0,
+        end_vertex: (NV - 1) as u16,
+        use_large_material_id: false,
+    };
+    let node = |c0: i16, c1: i16, first: u16, n: u16, nx: f32| WmoBspNode {
+        plane: WmoPlane { normal: v3(nx, 0.0, if nx == 0.0 { 1.0 } else { 0.0 }), distance: 2.0 },
+        children: [c0, c1],
+        first_face: first,
+        num_faces: n,
+    };
+    let lv = |k: usize| WmoLiquidVertex { position: v3((k % 3) as f32, (k / 3) as f32, 1.0), height: 1.0 + k as f32 * 0.1 };
+    WmoGroup {
+        header: WmoGroupHeader {
+            flags: WmoGroupFlags::HAS_NORMALS
+                | WmoGroupFlags::HAS_BASE_VERTICES
+                | WmoGroupFlags::HAS_LIGHT
+                | WmoGroupFlags::HAS_DOODADS
+                | WmoGroupFlags::HAS_WATER
+                | WmoGroupFlags::INDOOR
+                | WmoGroupFlags::HAS_VERTEX_COLORS,
+            bounding_box: BoundingBox { min: v3(0.0, 0.0, 0.0), max: v3(4.0, 4.0, 4.0) },
+            name_offset: 14,
+            group_index: 1,
+        },
+        materials: vec![0, 1],
+        vertices,
+        normals,
+        tex_coords,
+        batches: vec![batch(0, 0), batch(18, 1)],
+        indices,
+        vertex_colors: Some((0..NV).map(|i| col(i as u8 * 30, 100, 50, 255)).collect()),
+        bsp_nodes: Some(vec![node(1, 2, 0, 0, 1.0), node(-1, -1, 0, 6, 0.0), node(-1, -1, 6, 6, 0.0)]),
+        liquid: Some(WmoLiquid {
+            liquid_type: 13,
+            flags: 0,
+            width: 3,
+            height: 3,
+            vertices: (0..9).map(lv).collect(),
+            tile_flags: Some(vec![0x0F, 0x00, 0x40, 0x0F]),
+        }),
+        doodad_refs: Some(vec![0, 1, 3]),
+    }
+}
+
+/// The 68-byte MOGP header of the on-disk format (group_parser.rs MogpHeader).
+fn mogp_header() -> Vec<u8> {
+    let mut w = W(Vec::new());
+    w.u32(14).u32(0); // group name / descriptive name offsets into MOGN
+    w.u32(0x0000_3879); // flags
+    for v in [0.0f32, 0.0, 0.0, 4.0, 4.0, 4.0] {
+        w.f32(v);
+    }
+    w.u16(0).u16(2); // portal start / count
+    w.u16(0).u16(1).u16(1).u16(0); // trans / int / ext batch counts, padding
+    w.u8(0).u8(1).u8(0).u8(0); // fog ids
+    w.u32(5); // group liquid
+    w.u32(1701); // uniqueID (WMOAreaTable)
+    w.u32(0); // flags2
+    w.i16(-1).i16(-1); // split group parent / next
+    assert_eq!(w.0.len(), 68);
+    w.0
+}
+
+/// Sub-chunks as written by WmoWriter::write_group, keyed by tag (full chunk including header).
+fn writer_subchunks(version: WmoVersion) -> Vec<(String, Vec<u8>)> {
+    let g = group_model();
+    let mut out = Cursor::new(Vec::new());
+    WmoWriter::new().write_group(&mut out, &g, version).expect("WmoWriter::write_group");
+    let b = out.into_inner();
+    // MVER (12 bytes), MOGP header (8), the writer's 36 header bytes, then the sub-chunks
+    assert_eq!(rtag(&b, 12), "MOGP");
+    assert_eq!(u32_at(&b, 16) as usize, b.len() - 20);
+    let start = 12 + 8 + 36;
+    // write_liquid declares 32 header bytes but writes 40 (type, flags, w-1, h-1, 6 floats): the
+    // MLIQ size field is 8 short; repaired here so that the sub-chunks tile the MOGP payload
+    let mut b = b;
+    let mut subs = Vec::new();
+    let mut p = start;
+    while p + 8 <= b.len() {
+        let t = rtag(&b, p);
+        let mut sz = u32_at(&b, p + 4) as usize;
+        if t == "MLIQ" {
+            sz += 8;
+            put32(&mut b, p + 4, sz as u32);
+        }
+        assert!(p + 8 + sz <= b.len(), "wmo group: writer sub-chunk {t} overruns the file");
+        subs.push((t, b[p..p + 8 + sz].to_vec()));
+        p += 8 + sz;
+    }
+    assert_eq!(p, b.len(), "wmo group: writer sub-chunks do not tile the MOGP payload");
+    subs
+}
+
+fn mver(v: u32) -> Vec<u8> {
+    chunk("MVER", &v.to_le_bytes())
+}
+
+fn assemble_group(version_raw: u32, subs: &[Vec<u8>]) -> Vec<u8> {
+    let mut payload = mogp_header();
+    for s in subs {
+        payload.extend_from_slice(s);
+    }
+    let mut out = mver(version_raw);
+    out.extend_from_slice(&chunk("MOGP", &payload));
+    out
+}
+
+fn hand_mopy() -> Vec<u8> {
+    let mut w = W(Vec::new());
+    for i in 0..12u8 {
+        w.u8(0x20 | (i & 1)).u8(i / 6);
+    }
+    chunk("MOPY", &w.0)
+}
+
+fn hand_mobn() -> Vec<u8> {
+    // chunks.rs MobnEntry: flags:u16 negChild:i16 posChild:i16 nFaces:u16 faceStart:u32 planeDist:f32
+    let mut w = W(Vec::new());
+    w.u16(0).i16(1).i16(2).u16(0).u32(0).f32(2.0);
+    w.u16(4).i16(-1).i16(-1).u16(6).u32(0).f32(0.0);
+    w.u16(4).i16(-1).i16(-1).u16(6).u32(6).f32(0.0);
+    chunk("MOBN", &w.0)
+}
+
+fn hand_mobr() -> Vec<u8> {
+    let mut w = W(Vec::new());
+    for i in 0..12u16 {
+        w.u16(i);
+    }
+    chunk("MOBR", &w.0)
+}
+
+fn hand_mliq() -> Vec<u8> {
+    // real layout: xverts yverts xtiles ytiles corner[3] materialId:u16, verts (8 bytes), tiles (1 byte)
+    let mut w = W(Vec::new());
+    w.u32(3).u32(3).u32(2).u32(2).f32(0.0).f32(0.0).f32(1.0).u16(1);
+    for k in 0..9 {
+        w.u8(0).u8(0).u8(0).u8(0).f32(1.0 + k as f32 * 0.1);
+    }
+    for t in [0x04u8, 0x0F, 0x44, 0x04] {
+        w.u8(t);
+    }
+    chunk("MLIQ", &w.0)
+}
+
+fn build_group(name: &str) -> Vec<u8> {
+    match name {
+        "group-writer-mop" => {
+            let subs: Vec<Vec<u8>> = writer_subchunks(WmoVersion::Mop).into_iter().map(|s| s.1).collect();
+            assemble_group(17, &subs)
+        }
+        "group-v17" | "group-modern" => {
+            let ws: HashMap<String, Vec<u8>> = writer_subchunks(WmoVersion::Classic).into_iter().collect();
+            let take = |t: &str| ws.get(t).cloned().unwrap_or_else(|| panic!("writer did not produce {t}"));
+            let mut molr = W(Vec::new());
+            molr.u16(0).u16(2);
+            let mut subs = vec![
+                hand_mopy(),
+                take("MOVI"),
+                take("MOVT"),
+                take("MONR"),
+                take("MOTV"),
+                take("MOBA"),
+                chunk("MOLR", &molr.0),
+                take("MODR"),
+                hand_mobn(),
+                hand_mobr(),
+                take("MOCV"),
+                hand_mliq(),
+            ];
+            if name == "group-modern" {
+                let mut w = W(Vec::new());
+                for i in 0..10u16 {
+                    w.u16(i % 8);
+                }
+                subs.push(chunk("MORI", &w.0));
+                let mut w = W(Vec::new());
+                for k in 0..2u16 {
+                    w.u16(k * 5).u16(5).u16(0).u16(7).u8(0).u8(k as u8);
+                }
+                subs.push(chunk("MORB", &w.0));
+                let mut w = W(Vec::new());
+                for _ in 0..NV {
+                    w.i16(32767).i16(0).i16(0).i16(32767);
+                }
+                subs.push(chunk("MOTA", &w.0));
+                let mut w = W(Vec::new());
+                w.u16(0).i16(18).u16(0).u16(7).u8(0).u8(0);
+                subs.push(chunk("MOBS", &w.0));
+                // chunks of later expansions (unknown to this crate's ChunkId table, skipped by size)
+                let mut w = W(Vec::new());
+                for i in 0..12u16 {
+                    w.u16(0x20).u16(i / 6);
+                }
+                subs.push(chunk("MPY2", &w.0));
+                let mut w = W(Vec::new());
+                for i in 0..NIDX as u32 {
+                    w.u32(i % 8);
+                }
+                subs.push(chunk("MOVX", &w.0));
+                subs.push(chunk("MOGX", &0u32.to_le_bytes()));
+                let mut w = W(Vec::new());
+                for _ in 0..12 {
+                    w.u32(3);
+                }
+                subs.push(chunk("MOQG", &w.0));
+            }
+            assemble_group(17, &subs)
+        }
+        _ => wverif_common::tool_error(&format!("wmo: unknown seed {name}")),
+    }
+}
+
+// ---------------------------------------------------------------------------------------------
+// inventory
+// ---------------------------------------------------------------------------------------------
+
+fn first_last(n: usize) -> Vec<usize> {
+    match n {
+        0 => vec![],
+        1 => vec![0],
+        _ => vec![0, n - 1],
+    }
+}
+
+fn term_fields(s: &mut Seed, tag: &str, o: usize, tot: usize) {
+    if tot > 8 {
+        s.field_ex(o + tot - 1, 1, "term", format!("{tag}.last_nul"), o + tot, 1, None);
+        if let Some(p) = s.bytes[o + 8..o + tot].iter().position(|&b| b == 0) {
+            if o + 8 + p != o + tot - 1 {
+                s.field_ex(o + 8 + p, 1, "term", format!("{tag}.first_nul"), o + 8 + p + 1, 1, None);
+            }
+        }
+    }
+}
+
+fn root_inventory(s: &mut Seed) {
+    let len = s.bytes.len();
+    let chunks = add_chunk_seq(s, "top", 0, len, vec![], true);
+    let find = |t: &str| chunks.iter().find(|c| c.2 == t).map(|c| (c.0, c.1));
+    let pay = |t: &str| find(t).map(|c| c.0 + 8);
+    if let Some((o, _)) = find("MVER") {
+        s.field(o + 8, 4, "index", "MVER.version");
+    }
+    if let Some((o, tot)) = find("MOHD") {
+        let p = o + 8;
+        let tab: [(&str, &str, usize); 7] = [
+            ("n_materials", "MOMT", 64),
+            ("n_groups", "MOGI", 32),
+            ("n_portals", "MOPT", 20),
+            ("n_lights", "MOLT", 48),
+            ("n_doodad_names", "MODN", 1),
+            ("n_doodad_defs", "MODD", 40),
+            ("n_doodad_sets", "MODS", 32),
+        ];
+        for (i, (nm, tag, unit)) in tab.iter().enumerate() {
+            let base = pay(tag).unwrap_or(o + tot);
+            s.field_ex(p + 4 * i, 4, "count", format!("MOHD.{nm}"), base, *unit, None);
+        }
+        s.field(p + 28, 4, "index", "MOHD.ambient_color");
+        if tot == 8 + 64 {
+            s.field(p + 32, 4, "index", "MOHD.wmo_id");
+            s.field(p + 60, 2, "index", "MOHD.flags");
+            s.field(p + 62, 2, "count", "MOHD.num_lod");
+        } else {
+            s.field(p + 32, 4, "index", "MOHD.flags");
+        }
+    }
+    for t in ["MOTX", "MOGN", "MODN", "MOSB"] {
+        if let Some((o, tot)) = find(t) {
+            term_fields(s, t, o, tot);
+        }
+    }
+    if let Some((o, tot)) = find("MOMT") {
+        let base = pay("MOTX").unwrap_or(o + tot);
+        for i in first_last((tot - 8) / 64) {
+            let e = o + 8 + 64 * i;
+            s.field(e, 4, "index", format!("MOMT[{i}].flags"));
+            s.field(e + 4, 4, "index", format!("MOMT[{i}].shader"));
+            s.field(e + 8, 4, "index", format!("MOMT[{i}].blend_mode"));
+            s.field_ex(e + 12, 4, "stroff", format!("MOMT[{i}].texture1"), base, 1, None);
+            s.field_ex(e + 24, 4, "stroff", format!("MOMT[{i}].texture2"), base, 1, None);
+            s.field(e + 32, 4, "index", format!("MOMT[{i}].ground_type"));
+            s.field_ex(e + 36, 4, "stroff", format!("MOMT[{i}].texture3"), base, 1, None);
+        }
+    }
+    if let Some((o, tot)) = find("MOGI") {
+        let base = pay("MOGN").unwrap_or(o + tot);
+        for i in first_last((tot - 8) / 32) {
+            let e = o + 8 + 32 * i;
+            s.field(e, 4, "index", format!("MOGI[{i}].flags"));
+            s.field_ex(e + 28, 4, "stroff", format!("MOGI[{i}].name_offset"), base, 1, None);
+        }
+    }
+    if let Some((o, tot)) = find("MOPT") {
+        let base = pay("MOPV").unwrap_or(o + tot);
+        for i in first_last((tot - 8) / 20) {
+            let e = o + 8 + 20 * i;
+            s.field_ex(e, 2, "index", format!("MOPT[{i}].start_vertex"), base, 12, None);
+            s.field_ex(e + 2, 2, "count", format!("MOPT[{i}].n_vertices"), base, 12, None);
+        }
+    }
+    if let Some((o, tot)) = find("MOPR") {
+        for i in first_last((tot - 8) / 8) {
+            let e = o + 8 + 8 * i;
+            s.field(e, 2, "index", format!("MOPR[{i}].portal_index"));
+            s.field(e + 2, 2, "index", format!("MOPR[{i}].group_index"));
+            s.field(e + 4, 2, "index", format!("MOPR[{i}].side"));
+        }
+    }
+    if let Some((o, tot)) = find("MOVV") {
+        // as written by WmoWriter and read by WmoParser: u32 offsets into MOVB
+        let base = pay("MOVB").unwrap_or(o + tot);
+        for i in first_last((tot - 8) / 4) {
+            s.field_ex(o + 8 + 4 * i, 4, "offset", format!("MOVV[{i}]"), base, 1, None);
+        }
+    }
+    if let Some((o, tot)) = find("MOVB") {
+        // as written by WmoWriter: u16 lists, each closed by 0xFFFF
+        let n = (tot - 8) / 2;
+        for i in first_last(n) {
+            s.field(o + 8 + 2 * i, 2, "index", format!("MOVB[{i}]"));
+        }
+        if let Some(k) = (0..n).find(|&i| s.bytes[o + 8 + 2 * i] == 0xFF && s.bytes[o + 8 + 2 * i + 1] == 0xFF) {
+            if k + 1 != n {
+                s.field(o + 8 + 2 * k, 2, "index", format!("MOVB[{k}].end_marker"));
+            }
+        }
+    }
+    if let Some((o, tot)) = find("MOLT") {
+        for i in first_last((tot - 8) / 48) {
+            let e = o + 8 + 48 * i;
+            s.field(e, 1, "index", format!("MOLT[{i}].type"));
+            s.field(e + 1, 1, "index", format!("MOLT[{i}].use_attenuation"));
+        }
+    }
+    if let Some((o, tot)) = find("MODS") {
+        let base = pay("MODD").unwrap_or(o + tot);
+        for i in first_last((tot - 8) / 32) {
+            let e = o + 8 + 32 * i;
+            s.field_ex(e + 19, 1, "term", format!("MODS[{i}].name_last_byte"), e + 20, 1, None);
+            s.field_ex(e + 20, 4, "index", format!("MODS[{i}].start_index"), base, 40, None);
+            s.field_ex(e + 24, 4, "count", format!("MODS[{i}].count"), base, 40, None);
+        }
+    }
+    if let Some((o, tot)) = find("MODD") {
+        let base = pay("MODN").unwrap_or(o + tot);
+        for i in first_last((tot - 8) / 40) {
+            s.field_ex(o + 8 + 40 * i, 4, "stroff", format!("MODD[{i}].name_index_and_flags"), base, 1, None);
+        }
+    }
+    if let Some((o, _)) = find("MFOG") {
+        s.field(o + 8, 4, "index", "MFOG[0].flags");
+    }
+    if let Some((o, tot)) = find("GFID") {
+        for i in first_last((tot - 8) / 4) {
+            s.field(o + 8 + 4 * i, 4, "index", format!("GFID[{i}]"));
+        }
+    }
+}
+
+fn group_inventory(s: &mut Seed) {
+    let len = s.bytes.len();
+    let top = add_chunk_seq(s, "top", 0, len, vec![], true);
+    if let Some(c) = top.iter().find(|c| c.2 == "MVER") {
+        s.field(c.0 + 8, 4, "index", "MVER.version");
+    }
+    let (mo, mtot) = match top.iter().find(|c| c.2 == "MOGP") {
+        Some(c) => (c.0, c.1),
+        None => return,
+    };
+    let h = mo + 8;
+    s.field(h, 4, "stroff", "MOGP.group_name");
+    s.field(h + 4, 4, "stroff", "MOGP.descriptive_name");
+    s.field(h + 8, 4, "index", "MOGP.flags");
+    s.field(h + 36, 2, "index", "MOGP.portal_start");
+    s.field(h + 38, 2, "count", "MOGP.portal_count");
+    s.field(h + 40, 2, "count", "MOGP.trans_batch_count");
+    s.field(h + 42, 2, "count", "MOGP.int_batch_count");
+    s.field(h + 44, 2, "count", "MOGP.ext_batch_count");
+    s.field(h + 46, 2, "count", "MOGP.batch_type_d");
+    for i in 0..4 {
+        s.field(h + 48 + i, 1, "index", format!("MOGP.fog_ids[{i}]"));
+    }
+    s.field(h + 52, 4, "index", "MOGP.group_liquid");
+    s.field(h + 56, 4, "index", "MOGP.unique_id");
+    s.field(h + 60, 4, "index", "MOGP.flags2");
+    s.field(h + 64, 2, "index", "MOGP.parent_split_group");
+    s.field(h + 66, 2, "index", "MOGP.next_split_child");
+
+    let subs = add_chunk_seq(s, "MOGP", h + 68, mo + mtot, vec![mo + 4], true);
+    let find = |t: &str| subs.iter().find(|c| c.2 == t).map(|c| (c.0, c.1));
+    let pay = |t: &str| find(t).map(|c| c.0 + 8);
+    let movt = pay("MOVT").unwrap_or(mo + mtot);
+    let movi = pay("MOVI").unwrap_or(mo + mtot);
+    let mobr = pay("MOBR").unwrap_or(mo + mtot);
+    if let Some((o, tot)) = find("MOPY") {
+        for i in first_last((tot - 8) / 2) {
+            s.field(o + 8 + 2 * i, 1, "index", format!("MOPY[{i}].flags"));
+            s.field(o + 8 + 2 * i + 1, 1, "index", format!("MOPY[{i}].material_id"));
+        }
+    }
+    if let Some((o, tot)) = find("MOVI") {
+        for i in first_last((tot - 8) / 2) {
+            s.field_ex(o + 8 + 2 * i, 2, "index", format!("MOVI[{i}]"), movt, 12, None);
+        }
+    }
+    if let Some((o, tot)) = find("MOBA") {
+        for i in first_last((tot - 8) / 24) {
+            let e = o + 8 + 24 * i;
+            s.field_ex(e + 12, 4, "index", format!("MOBA[{i}].start_index"), movi, 2, None);
+            s.field_ex(e + 16, 2, "count", format!("MOBA[{i}].count"), movi, 2, None);
+            s.field_ex(e + 18, 2, "index", format!("MOBA[{i}].min_index"), movt, 12, None);
+            s.field_ex(e + 20, 2, "index", format!("MOBA[{i}].max_index"), movt, 12, None);
+            s.field(e + 22, 1, "index", format!("MOBA[{i}].flags"));
+            s.field(e + 23, 1, "index", format!("MOBA[{i}].material_id"));
+        }
+    }
+    for t in ["MOLR", "MODR", "MOBR", "MORI"] {
+        if let Some((o, tot)) = find(t) {
+            for i in first_last((tot - 8) / 2) {
+                s.field(o + 8 + 2 * i, 2, "index", format!("{t}[{i}]"));
+            }
+        }
+    }
+    if let Some((o, tot)) = find("MOBN") {
+        for i in first_last((tot - 8) / 16) {
+            let e = o + 8 + 16 * i;
+            s.field(e, 2, "index", format!("MOBN[{i}].flags"));
+            s.field(e + 2, 2, "index", format!("MOBN[{i}].neg_child"));
+            s.field(e + 4, 2, "index", format!("MOBN[{i}].pos_child"));
+            s.field_ex(e + 6, 2, "count", format!("MOBN[{i}].n_faces"), mobr, 2, None);
+            s.field_ex(e + 8, 4, "index", format!("MOBN[{i}].face_start"), mobr, 2, None);
+        }
+    }
+    if let Some((o, tot)) = find("MLIQ") {
+        let p = o + 8;
+        let data = (p + 30).min(o + tot);
+        s.field_ex(p, 4, "count", "MLIQ.x_verts", data, 8, None);
+        s.field_ex(p + 4, 4, "count", "MLIQ.y_verts", data, 8, None);
+        s.field_ex(p + 8, 4, "count", "MLIQ.x_tiles", data, 1, None);
+        s.field_ex(p + 12, 4, "count", "MLIQ.y_tiles", data, 1, None);
+        s.field(p + 28, 2, "index", "MLIQ.material_id");
+    }
+    for t in ["MORB", "MOBS"] {
+        if let Some((o, _)) = find(t) {
+            s.field_ex(o + 8, 2, "index", format!("{t}[0].start_index"), movi, 2, None);
+            s.field_ex(o + 10, 2, "count", format!("{t}[0].index_count"), movi, 2, None);
+            s.field_ex(o + 12, 2, "index", format!("{t}[0].min_index"), movt, 12, None);
+            s.field_ex(o + 14, 2, "index", format!("{t}[0].max_index"), movt, 12, None);
+        }
+    }
 }
 
 pub fn build(name: &str) -> Seed {
-    wverif_common::tool_error(&format!("wmo: unknown seed {name}"))
+    if name.starts_with("root-") {
+        let bytes = match name {
+            "root-full-v17" => upgrade_root(write_root(WmoVersion::Wotlk, true)),
+            "root-classic-writer" => write_root(WmoVersion::Classic, false),
+            "root-mop-writer" => write_root(WmoVersion::Mop, true),
+            "root-wod-v18-writer" => write_root(WmoVersion::Wod, true),
+            _ => wverif_common::tool_error(&format!("wmo: unknown seed {name}")),
+        };
+        let mut s = Seed::new("wmo", name, bytes);
+        s.aux = Aux::Names(vec!["root".into()]);
+        root_inventory(&mut s);
+        s
+    } else {
+        let mut s = Seed::new("wmo", name, build_group(name));
+        s.aux = Aux::Names(vec!["group".into()]);
+        group_inventory(&mut s);
+        s
+    }
 }
 
-pub fn run(_r: &mut Runner, _bytes: &[u8], _aux: &Aux) {}
+/// True if a MOHD tag stands at a top-level chunk position.
+fn has_top_level_mohd(bytes: &[u8]) -> bool {
+    let mut p = 0usize;
+    while p + 8 <= bytes.len() {
+        if &bytes[p..p + 4] == b"DHOM" {
+            return true;
+        }
+        let sz = u32_at(bytes, p + 4) as usize;
+        p = match p.checked_add(8 + sz) {
+            Some(n) => n,
+            None => return false,
+        };
+    }
+    false
+}
+
+pub fn run(r: &mut Runner, bytes: &[u8], aux: &Aux) {
+    r.call("parse_wmo", || wow_wmo::parse_wmo(&mut Cursor::new(bytes)).map(|_| ()).map_err(errname));
+    // WmoParser (parser.rs) has a root method only; the crate's group counterpart
+    // (WmoGroupParser::parse_group) is a stub that returns Err without reading. Root seeds always
+    // go through parse_root; inputs derived from a group seed do when they carry a MOHD chunk.
+    let is_root = matches!(aux, Aux::Names(v) if v.first().map(|s| s == "root").unwrap_or(false));
+    if is_root || has_top_level_mohd(bytes) {
+        r.call("WmoParser", || WmoParser::new().parse_root(&mut Cursor::new(bytes)).map(|_| ()).map_err(errname));
+    }
+}
